@@ -3,6 +3,7 @@
 //!   pb_harness run <domain>                              -> reads case lines, prints `<case> => <result>`
 //! One case per line; a stateful case (operation sequence / history) is one line too.
 mod codec;
+mod dp;
 mod util;
 
 use std::io::{BufRead, Write};
@@ -13,6 +14,7 @@ type RunFn = fn(&str) -> String;
 /// Registry of domains: name, generator, runner.  Add one line per new domain.
 const DOMAINS: &[(&str, GenFn, RunFn)] = &[
     ("codec", codec::gen, codec::run_case),
+    ("dp", dp::gen, dp::run_case),
 ];
 
 fn main() {
